@@ -91,7 +91,7 @@ def check(prop, tier, seed):
                 run.violation(vcase("generate did not return Ok or Err: %s" % json.dumps(res)[:300], s, res))
 
     # (1) the other engines' replay sets
-    lex_cases = lexer.mc_cases(3, "all", wd, run)
+    lex_cases = lexer.mc_cases(3, "all", wd, run) + lexer.mc_cases(3, "sweep", wd, run)
     srcs = [lexer.cps_to_str(c["src"]) for c in lex_cases]
     judge_batch("lexer-atoms", srcs, common.kv("gen", [{"id": i, "src": s, "want": []} for i, s in enumerate(srcs)], timeout=3000))
     r = common.tlc("MC_Validate", env={"DEPTH": 2, "PRINT": "1"}, workers=8, timeout=6000, xmx="8g")
